@@ -551,6 +551,10 @@ func c03(c *Ctx) {
 				c.Notes = append(c.Notes, "shared-wrapper: the option hook was not reached")
 			}
 		}
+		// peers whose address the wrapper cannot parse (no port, unix socket, empty): a ticket bound to host A is refused
+		for _, ra := range []string{"10.0.0.66", "10.0.0.1", "@", "", "not-an-address:x:y"} {
+			c.Check(serve(ra, header()) == 401, "a ticket bound to a client address is refused when the peer's address is unknown", "addr-bound-ticket-served:"+ra, "", nil)
+		}
 		// sequentially first: A is served, B is refused
 		c.Check(serve("10.0.0.1:40000", header()) == 200, "a request from the host the ticket is bound to is served", "shared-wrapper:own-host-refused", "", nil)
 		c.Check(serve("10.0.0.66:40000", header()) == 401, "a request from another host than the ticket's is refused", "shared-wrapper:other-host-served", "sequential", nil)
